@@ -328,6 +328,9 @@ type frag struct {
 	calls   map[string]string // method/function name -> Coq function (pure, returns value)
 	mcalls  map[string]string // N mode: mutating method statements r.m(x) -> Coq function
 	inits   map[string]string // initial values of named results / declared vars
+	// fieldVars: a field written by the fragment (source of the selector
+	// expression -> variable name); it starts at 0 and is read through exprMap
+	fieldVars map[string]string
 	// loopSkip: a top-level for statement is not translated; v_looped becomes
 	// true and, after it, expressions are mapped through exprMap2 (post-state)
 	loopSkip bool
@@ -557,6 +560,10 @@ func (t *tr) assign(lhs ast.Expr, rhs string, rest func() string) string {
 	case *ast.StarExpr:
 		if id, ok := l.X.(*ast.Ident); ok && id.Name == t.f.recvVar {
 			return "let v_" + id.Name + " := " + rhs + " in\n  " + rest()
+		}
+	case *ast.SelectorExpr:
+		if name, ok := t.f.fieldVars[src(l)]; ok {
+			return "let v_" + name + " := " + rhs + " in\n  " + rest()
 		}
 	}
 	return ""
@@ -834,6 +841,16 @@ func translate(p *pkgInfo, f *frag) string {
 	if f.loopSkip {
 		b.WriteString("let v_looped := false in\n  ")
 	}
+	{
+		var fvs []string
+		for _, v := range f.fieldVars {
+			fvs = append(fvs, v)
+		}
+		sort.Strings(fvs)
+		for _, v := range fvs {
+			fmt.Fprintf(&b, "let v_%s := 0 in\n  ", v)
+		}
+	}
 	// named results start at their zero values
 	if fd.Type.Results != nil {
 		for _, fl := range fd.Type.Results.List {
@@ -1030,6 +1047,21 @@ func main() {
 		{coq: "g_Avail", fn: "Stack.Avail", mode: "Z", ret: "Z",
 			params:  [][2]string{{"init", "bool"}, {"len", "Z"}, {"cap", "Z"}},
 			exprMap: map[string]string{"r.IsInit()": "init", "r.cap()": "cap", "r.len()": "len"}},
+		// the pointer chase shared by the converters and the comparisons: one
+		// iteration of its loop (cut 0: strip one level and go on; cut 1: stop)
+		{coq: "g_derefPtr_body", fn: "derefPtr", mode: "Z", ret: "tres", loopBody: true, loopHead: "for",
+			params: [][2]string{{"isptr", "bool"}}, exprMap: map[string]string{"isPtr(t)": "isptr"},
+			inits: map[string]string{"t": "", "v": ""},
+			skip:  []string{"var k reflect.Kind", "k = v.Kind()", "return t, v, k"}},
+		// the capacity a constructor records: cfg.cap as newStack leaves it
+		{coq: "g_newStack_cap", fn: "newStack", mode: "Z", ret: "tres",
+			params:    [][2]string{{"clen", "Z"}, {"c0", "Z"}},
+			exprMap:   map[string]string{"len(c)": "clen", "c[0]": "c0", "cfg.cap": "v_cap"},
+			fieldVars: map[string]string{"cfg.cap": "cap"},
+			inits:     map[string]string{"t": ""},
+			skip: []string{"var (\n\tcfg\t*nodeConfig\t= new(nodeConfig)\n\tst\tstack\n)", "cfg.log = newLogSystem(sLogDefault)", "cfg.log.lvl = logLevels(sLogLevelDefault)",
+				"cfg.typ = t", "cfg.ord = fifo", "st = make(stack, 0, cfg.cap)", "st = make(stack, 0)", "st = append(st, cfg)", "instance := &st"},
+			zvars: []string{"cap"}, pinTails: true},
 		{coq: "g_capLenEqual", fn: "capLenEqual", mode: "Z", ret: "bool"},
 		{coq: "g_factorNegIndex", fn: "factorNegIndex", mode: "Z", ret: "Z"},
 		{coq: "g_calculateDefragMax", fn: "calculateDefragMax", mode: "Z", ret: "Z",
